@@ -267,6 +267,9 @@ func init() {
 		}
 		return VSlice{arr, 0, n, n}
 	}
+	// a decode into a destination the contract does not model: "the decoder produced some
+	// value" -- the destination is left as the harness prepared it
+	verifHooks["verifDeposit"] = func(e *Exec, a []Value) Value { return VBool{BoolC(true)} }
 	verifHooks["verifBoundExceeded"] = func(e *Exec, a []Value) Value {
 		e.unwound = append(e.unwound, "contract bound: "+strArg(a[0]))
 		panic(pathEnd{"BOUND " + strArg(a[0])})
